@@ -241,7 +241,12 @@ def _silence():
     lg.handlers[:] = [logging.NullHandler()]
     lg.propagate = False
     from breezy import ui
-    ui.ui_factory = ui.SilentUIFactory()         # cmd.outf ("Now on revision 3.") goes nowhere
+
+    class Quiet(ui.SilentUIFactory):             # cmd.outf ("Now on revision 3.") goes nowhere, but has an encoding
+        def _make_output_stream_explicit(self, encoding, encoding_type):
+            return ui.NullOutputStream(encoding or "utf-8")
+
+    ui.ui_factory = Quiet()
 
 
 def _replay(sub, groups):
